@@ -139,6 +139,30 @@ class Concretizer:
                 p.source_depths[fn] = dep
         return sig
 
+    def build_input(self, info, **kw):
+        """build_sig, honouring harness.strip_provenance"""
+        sig = self.build_sig(info, **kw)
+        if getattr(info, 'bare', False):
+            ps = [p.replace(sources=[], source_depths={}) for p in sig.parameters.values()]
+            sig = type(sig)(ps, return_annotation=sig.return_annotation, upgraded_return_annotation=sig.upgraded_return_annotation)
+        return sig
+
+    def add_extra_callables(self, infos, sigs):
+        """second pass (after every input's defining function exists): the further callables of an input's provenance -
+        the very function object of another input when the model identifies them - enter '+depths', and the sources of
+        the first parameter"""
+        for info, sig in zip(infos, sigs):
+            for j in range(1, len(info.funcs)):
+                g = self.func(info.funcs[j], lambda i: make_function([], 'extra_%s%d' % (info.side, j)))
+                dep = self.integer(info.depth_terms[j])
+                sig.sources['+depths'][g] = dep
+                ps = list(sig.parameters.values())
+                if ps:
+                    if g not in sig.sources[ps[0].name]:
+                        sig.sources[ps[0].name].append(g)
+                    ps[0].source_depths[g] = dep
+        return sigs
+
     def call(self, c):
         n = self.integer(c.n)
         S = []
